@@ -354,6 +354,12 @@ def run(ctx):
                                             max_delay=rng.choice([200, 800, 2000]), replay=0.1, sizes=[8, 20, 60], send_rate=0.3,
                                             si=16, ka=rng.choice([15, 32]), heal=False,
                                             start={"ss": 65535 - rng.randint(0, 40), "sm": 65400, "sf": 1} if i % 2 else None))
+    # a retransmitted message that arrives further behind the newest message number than the 256-wide message window is wide and was
+    # never received before is NOT a duplicate (the generator is C05's)
+    from harness.props import c05 as _c05
+    for j, n_other in enumerate(ctx.scale([255, 257, 300], [100, 250, 255, 256, 257, 258, 300, 400, 520])):
+        for fault in ("lost", "reorder"):
+            ccases.append(_c05.gen_overtaken_case(real, rng, "ov%d%s" % (j, fault[0]), rng.choice([1500, 512]), n_other, fault))
     real2 = connlib.Real()
 
     def cpost(op, out):
@@ -371,4 +377,6 @@ def run(ctx):
     for c in ccases:
         connlib.window_monitor(c, logs.get(core.case_id(c), []), ctx)
         if ctx.failures:
+            return
+        if connlib.fresh_message_monitor(c, logs.get(core.case_id(c), []), ctx):
             return
